@@ -19,10 +19,15 @@ Definition spec_node (t : Z) (us : list update) (i : Z) (n : wnode) : wnode :=
   end.
 
 (* SPEC relation member: same, and the orientation is multiplied by -1 once per matching
-   update that carries the reverse flag (type, ref, role kept) *)
+   update that carries the reverse flag, see [flipped] (type, ref, role kept) *)
+(* the orientation after k flips, in int8 arithmetic as the code computes it (for the values
+   -1, 0, 1 that occur: o if k is even, -o if k is odd) *)
+Definition flipped (o : Z) (k : nat) : Z :=
+  if Nat.eqb k 0 then o else wrap8 (if Nat.even k then o else - o).
+
 Definition spec_member (t : Z) (us : list update) (i : Z) (m : member) : member :=
   let l := matching t i us in
-  let o := if Nat.even (length (filter u_rev l)) then m_orient m else - m_orient m in
+  let o := flipped (m_orient m) (length (filter u_rev l)) in
   match last_opt l with
   | None => m
   | Some u => mkMember (m_type m) (m_ref m) (m_role m) (u_ver u) (u_cs u) (u_lat u) (u_lon u) o
